@@ -67,3 +67,7 @@ Definition msg_scalar_kind (fd : fdesc) : bool := match f_kind fd with KS _ => t
 Definition msg_kept_scalar (kp : N -> bool) (md : mdesc) (fs : fields) : bool :=
   forallb (fun p => negb (kp (fst p)) ||
                     match msg_find_field md (fst p) with Some fd => msg_scalar_kind fd | None => false end) fs.
+
+(* no field of any message type refers to the root type (index 0): the root is not recursive *)
+Definition msg_root_unref (S : schema) : Prop :=
+  forall t md fd t', nth_error S t = Some md -> In fd md -> (f_kind fd = KMsg t' \/ f_kind fd = KGrp t') -> t' <> O.
